@@ -50,6 +50,12 @@ def run(ctx: Ctx) -> None:
     for i, j in enumerate(jobs):
         j["noise"] = noise_specs(ctx.rng, i)
         j["ct"] = False
+        if i % 4 == 1:
+            j["init"] = "mixed"        # mixed initial density matrix
+        if i % 3 == 1:
+            j["twice"] = True          # same config object used for a second run
+        j["strata"]["init"] = j.get("init")
+        j["strata"]["twice"] = bool(j.get("twice"))
         j["strata"]["noise"] = sorted(j["noise"].keys())
         j["obs"] = [o for o in j["obs"] if o["k"] in ("occupation", "state", "correlation_matrix", "energy")]
         if not any(o["k"] == "state" for o in j["obs"]):
